@@ -867,3 +867,9 @@ mod tests {
         assert_eq!(events, 1, "Backend SHOULD have been kicked after enabling");
     }
 }
+
+// Verification harnesses (Kani); the sources live outside this repository.
+#[cfg(feature = "verif")]
+mod verif {
+    include!(concat!(env!("VHOST_VERIF_DIR"), "/harness/vub_handler.rs"));
+}
